@@ -35,6 +35,7 @@ type Engine struct {
 	typeIDs   map[string]int
 	loadSecs  float64
 	known     map[string]*knownFinding // by obligation name
+	ghosts    map[string]string        // ghost variable name -> type name
 }
 
 func (e *Engine) typeID(t types.Type) int {
@@ -147,7 +148,7 @@ func loadEngine(only []string) (*Engine, error) {
 	prog, spkgs := ssautil.AllPackages(pkgs, ssa.NaiveForm|ssa.GlobalDebug)
 	prog.Build()
 	e := &Engine{prog: prog, pkgs: pkgs, ssaPkgs: map[string]*ssa.Package{}, contracts: map[string]*FuncContract{},
-		byKey: map[string]*FuncContract{}, pures: map[string]*PureFunc{}, pureAny: map[string][]*PureFunc{}, typeIDs: map[string]int{},
+		byKey: map[string]*FuncContract{}, pures: map[string]*PureFunc{}, pureAny: map[string][]*PureFunc{}, typeIDs: map[string]int{}, ghosts: map[string]string{},
 		sizes: types.SizesFor("gc", "amd64")}
 	for _, sp := range prog.AllPackages() {
 		e.ssaPkgs[sp.Pkg.Path()] = sp
@@ -199,6 +200,9 @@ func loadEngine(only []string) (*Engine, error) {
 				return err
 			}
 			e.files = append(e.files, cf)
+			for _, g := range cf.Ghosts {
+				e.ghosts[g.Name] = g.Type
+			}
 			for _, fc := range cf.Funcs {
 				fc.Assumed = true
 				if fc.Trusted == "" {
@@ -338,7 +342,7 @@ func (e *Engine) verifyFunc(fc *FuncContract) (res *FuncResult) {
 		f.top = true
 		f.hv = hv
 		st := newState()
-		c.decl("fn:alive0", "(declare-fun alive0 (Int) Bool)")
+		c.declClock()
 		for _, p := range fn.Params {
 			name := "p." + sanitize(p.Name())
 			c.decls = append(c.decls, fmt.Sprintf("(declare-const %s %s)", name, c.sortOf(p.Type())))
@@ -352,6 +356,20 @@ func (e *Engine) verifyFunc(fc *FuncContract) (res *FuncResult) {
 			}
 			f.vals[p] = v
 			f.params[p.Name()] = v
+		}
+		// axioms of the package's contract file (assumptions; listed in the evidence)
+		for _, cf := range e.files {
+			if cf.Pkg != fc.Pkg {
+				continue
+			}
+			for _, ax := range cf.Axioms {
+				if ax.Mode != "" && ax.Mode != fc.Mode {
+					continue
+				}
+				aenv := &SpecEnv{c: c, vars: map[string]Val{}, pkg: fn.Pkg}
+				c.assume(aenv.evalBool(ax.Expr))
+				c.used[fmt.Sprintf("axiom %s.%s: %s", cf.Pkg[strings.LastIndex(cf.Pkg, "/")+1:], ax.Name, ax.Text)] = true
+			}
 		}
 		f.entrySt = st.clone()
 		env := f.specEnv(st, st, false)
@@ -397,6 +415,16 @@ func (f *Frame) finish(nreq int) {
 		}
 		if len(r.vals) == 1 {
 			env.vars["result"] = r.vals[0]
+		}
+		for _, w := range fc.Witness {
+			wenv := f.specEnv(r.st, f.entrySt, true)
+			wt := wenv.typeByName(w.Type)
+			wv := wenv.eval(w.Expr, wt)
+			if isInt(wt) && isInt(wv.T) && !isUntyped(wv.T) {
+				wv = Val{T: wt, S: c.convInt(wv.S, wv.T, wt)}
+			}
+			wv.T = wt
+			env.vars[w.Name] = wv
 		}
 		f.curEnv = env
 		for i, en := range fc.Ensures {
@@ -479,6 +507,9 @@ func (f *Frame) frameCheck(r retInfo, env *SpecEnv) {
 		return
 	}
 	for _, n := range sortedKeysS(r.st.heaps) {
+		if n == nowHeap {
+			continue
+		}
 		t := r.st.heaps[n]
 		def := c.defaultHeap(0, n, c.heapSorts[n])
 		if t == def || allowed[n] {
